@@ -7,12 +7,14 @@ shared_w      two convolutions that share one weight tensor but differ in bias t
               request finds the weights in the compression cache and builds a stand-alone scale tensor
 transpose     TRANSPOSE on the NPU (OFM strides of the swapped shape), incl. permutations that move the channel axis
 resize_half   RESIZE_BILINEAR with half-pixel centres: tile padding, OFM stride multiplier, tile base offsets
+scalar        a quantised scalar constant (shape [], zero point and scale of its own) as second or first operand:
+              `ifm2_scalar` is the dequantised value, quantised again with the IFM2 quantisation by the register generator
 clamp         fused / stand-alone RELU-family activations behind operators that force the OFM zero point to 0 or override
               the OFM scale: average pools (with PAD, with QUANTIZE), LEAKY_RELU, ABS, resize, ADD/MUL with activation
 """
 import numpy as np
 
-FAMILIES = ["bcast_first", "const_first", "shared_w", "transpose", "resize_half", "clamp", "bcast_first", "shared_w", "clamp"]
+FAMILIES = ["bcast_first", "const_first", "shared_w", "transpose", "resize_half", "clamp", "bcast_first", "shared_w", "clamp", "scalar"]
 
 
 def build(rng, idx, family=None):
@@ -28,7 +30,7 @@ def build(rng, idx, family=None):
         import ta_lib
 
         return ta_lib.ta_net(rng, 7 * idx + 5)          # index 5 (mod 7) of TA_FAMILIES = resize_half_pixel
-    dtype = rng.choice(["int8", "int8", "uint8", "int16"]) if fam in ("bcast_first", "const_first") else rng.choice(["int8", "int8", "uint8"])
+    dtype = rng.choice(["int8", "int8", "uint8", "int16"]) if fam in ("bcast_first", "const_first", "scalar") else rng.choice(["int8", "int8", "uint8"])
     b = netgen.B(rng, f"hl{idx}_{fam}", dtype)
     b.net.desc.append(f"hl2npu family={fam} dtype={dtype}")
     lo, hi = netgen._qrange(dtype)
@@ -78,6 +80,28 @@ def build(rng, idx, family=None):
         y = b.binary(kind, k, x, act=rng.choice([0, 0, 1])) if kind in ("ADD", "SUB", "MUL") else b.binary(kind, k, x)
         if rng.random() < 0.4:
             y = b.binary(rng.choice(["SUB", "ADD"]), x, y)
+        return b.finish([tail(y)])
+    if fam == "scalar":
+        h, w, c = rng.choice([1, 4, 9]), rng.choice([2, 4, 7]), rng.choice([1, 4, 8, 16])
+        x = b.input([1, h, w, c])
+        if rng.random() < 0.5:
+            x = b.conv(x, c, (1, 1), (1, 1), (1, 1), "SAME") or x
+        y = x
+        for _ in range(rng.randint(1, 3)):
+            yt = b.t(y)
+            kind = rng.choice(["ADD", "SUB", "MUL", "MINIMUM", "MAXIMUM", "SUB"])
+            same = kind in ("MINIMUM", "MAXIMUM")
+            k = b.const([], dtype, [rng.randint(lo, hi)], [yt.scales[0] if same else netgen.rand_scale(rng)],
+                        [yt.zps[0] if same else netgen.rand_zp(rng, dtype)])
+            first = rng.random() < 0.4
+            ins = [k, y] if first else [y, k]
+            o = b.fm(list(yt.shape), dtype, scale=yt.scales[0] if same else None, zp=yt.zps[0] if same else None)
+            if same:
+                b.net.ops.append(Op(kind, ins, [o], ("MaximumMinimumOptions", {})))
+            else:
+                oname = {"ADD": "AddOptions", "SUB": "SubOptions", "MUL": "MulOptions"}[kind]
+                b.net.ops.append(Op(kind, ins, [o], (oname, dict(FusedActivationFunction=rng.choice([0, 0, 1])))))
+            y = o
         return b.finish([tail(y)])
     if fam == "shared_w":
         ic = rng.choice([4, 8, 16])
